@@ -35,6 +35,12 @@ MACHINE_TOKENS = ['{TODAY}', '{CWD}', '{HOME}', '{TMPDIR}', '{USER}',
                   '{HOST}']
 
 
+def file_lines(fl):
+    """All the lines of a text output file."""
+    return ['row %d ok' % k for k in range(fl.get('long_prefix') or 0)] + (
+        list(fl['lines']))
+
+
 def line_strategy(plain=False):
     pool = WORDS if plain else WORDS + SPECIAL
     return st.lists(st.sampled_from(pool), min_size=0, max_size=4).map(
@@ -52,9 +58,17 @@ def out_file(draw, i):
         name = draw(st.sampled_from(['out%d.txt' % i, 'result%d.csv' % i,
                                      'report %d.txt' % i, 'Data%d.json' % i,
                                      'STDOUT' if i == 0 else 'x%d.md' % i]))
-        return {'name': name, 'kind': 'text',
-                'lines': draw(text_strategy()),
-                'final_newline': draw(st.booleans())}
+        f = {'name': name, 'kind': 'text',
+             'lines': draw(text_strategy()),
+             'final_newline': draw(st.booleans())}
+        if draw(st.integers(0, 7)) == 0:
+            # a long file: more plain-ASCII lines than any sniffing of the
+            # head of the file would read, then the drawn lines, then one
+            # that is certainly not ASCII
+            f['long_prefix'] = draw(st.sampled_from([201, 230, 1100]))
+            if draw(st.booleans()):
+                f['lines'] = f['lines'] + ['caf\u00e9 total \u20ac 5']
+        return f
     name = draw(st.sampled_from(['blob%d.bin' % i, 'img%d.png' % i,
                                  'data%d.dat' % i]))
     head = b'\x89PNG\r\n\x1a\n' if name.endswith('.png') else b''
@@ -120,6 +134,10 @@ def valid_case(case):
             if f['kind'] == 'text':
                 if not all(isinstance(x, str) and '\n' not in x
                            and '\r' not in x for x in f['lines']):
+                    return False
+                lp = f.get('long_prefix')
+                if lp is not None and not (isinstance(lp, int)
+                                           and 0 <= lp <= 2000):
                     return False
             else:
                 if not bytes.fromhex(f['hex']):
@@ -211,7 +229,7 @@ class Workdir(object):
         p = self.payload_path('f%d' % i)
         if fl['kind'] == 'text':
             with open(p, 'w', encoding='utf-8', newline='') as f:
-                f.write(text_of(fl['lines'], self.env,
+                f.write(text_of(file_lines(fl), self.env,
                                 fl.get('final_newline', True)))
         else:
             with open(p, 'wb') as f:
